@@ -116,7 +116,7 @@ def _run_tlc(workdir, module, *, cfg=None, workers=None, dump=False, coverage=Tr
     # NB: touching fresh pages is very slow in this sandbox (~30 MB/s): a fixed, small young generation
     # that is reused beats the adaptive default by an order of magnitude (measured 46 s -> 3 s).
     cmd = ["java", "-XX:+UseParallelGC", "-XX:ParallelGCThreads=4", "-XX:-UseAdaptiveSizePolicy", "-Xmn" + young,
-           "-Xmx" + heap, "-Xss16m"] + list(java_opts) + [
+           "-Xmx" + heap, "-Xss16m", "-Djava.io.tmpdir=" + workdir] + list(java_opts) + [
         "-cp", JAR, "tlc2.TLC", "-workers", str(workers), "-metadir", meta, "-noGenerateSpecTE"]
     if cfg:
         cmd += ["-config", cfg]
@@ -211,7 +211,8 @@ def parse_trace(out):
 
 
 def sany(path):
-    p = subprocess.run(["java", "-cp", JAR, "tla2sany.SANY", path], cwd=os.path.dirname(path),
+    # (the tools unpack their standard modules into java.io.tmpdir: keep that inside the scratch directory, which is removed at exit)
+    p = subprocess.run(["java", "-Djava.io.tmpdir=" + os.path.dirname(path), "-cp", JAR, "tla2sany.SANY", path], cwd=os.path.dirname(path),
                        stdout=subprocess.PIPE, stderr=subprocess.STDOUT, text=True)
     if p.returncode != 0 or "Semantic errors" in p.stdout or "***Parse Error***" in p.stdout \
             or "Fatal errors" in p.stdout:
